@@ -130,7 +130,7 @@ func Scatter(choose func(n int) int) string {
 			continue
 		}
 		wk, bk := p.KingSq(true), p.KingSq(false)
-		if d := abs(wk/8-bk/8); d <= 1 && abs(wk%8-bk%8) <= 1 {
+		if d := abs(wk/8 - bk/8); d <= 1 && abs(wk%8-bk%8) <= 1 {
 			continue
 		}
 		return f
